@@ -19,7 +19,8 @@ ID = "C06b"
 LEVEL = "proof"
 HARNESSES = [{"name": "main", "src": "harness.cpp", "flags": ["-O1", "-DTETL_ENABLE_CONTRACT_CHECKS=1"]}]
 
-RULE = ("exhaustive: every sequence of length <= 5 over 3 keys (thorough: <= 6 over 4 keys, length 7 sampled), every "
+RULE = ("exhaustive: every sequence of length <= 5 over 3 keys (thorough: <= 6 over 4 keys, length 7 sampled; two-range "
+        "operations: first range <= 6 over 3 keys), every "
         "needle / second range of length <= 3 (thorough <= 4), every count n in [-1, len+1], every probe value in "
         "[-1, keys], comparators less / greater / mod-3 / key-with-tag, predicates ==, mod-3-equivalence, < ; sorted "
         "pairs of tagged sequences for merge / set operations / includes; iterator flavours pointer, forward, "
@@ -85,13 +86,14 @@ def gen(tier, rng):
     ml = 5 if quick else 6          # max length
     ms = 3 if quick else 4          # max needle / second range length
     alpha = list(range(nk))
+    alpha3 = list(range(3))
     S1 = list(seqs(alpha, ml))
     if not quick:
         S1 += [[rng.randrange(nk) for _ in range(7)] for _ in range(3000)]
-    S1m = list(seqs(alpha, ml if quick else 5))          # first ranges of two-range ops
-    S2 = list(seqs(alpha, ms))
+    S1m = list(seqs(alpha3, ml))                         # haystacks of the search family
+    S2 = list(seqs(alpha3, ms))                          # needles / second ranges
     alpha4 = list(range(4))
-    q = 4 if quick else 2
+    q = 4
     cnt = 0
 
     def flavours(maxf, h, all_=False):
@@ -190,7 +192,7 @@ def gen(tier, rng):
                 for f in [0] + [g for g in (1, 2, 3) if pick(cnt + g, 2 * q)]:
                     out.append(f"find_first_of {f} {b} {L(l)} {L(s)}")
     # ---------------- two ranges: comparisons (ordered pairs, lengths <= ml-1 and <= ms)
-    SB = list(seqs(alpha, ml - 1))
+    SB = list(seqs(alpha3, 4 if quick else 5))
     pairs = []
     for l in SB:
         for s in S2:
@@ -220,7 +222,7 @@ def gen(tier, rng):
             for f in flavours(2, cnt):
                 out.append(f"is_permutation3 {f} {L(l)} {L(s)}")
     # equal-length pairs beyond the needle length (the interesting region of equal / is_permutation)
-    E = list(seqs(alpha, ml - 1))
+    E = list(seqs(alpha3, 4 if quick else 5))
     for l in E:
         for s in E:
             if len(l) != len(s) or len(l) <= ms:
